@@ -383,3 +383,119 @@ func (b *Body) closuresWriteCaptures(l *Ledger) {
 		l.add("R-GLOBALS", "codec", key, "", Discharged, fmt.Sprintf("%d captured pointer(s) examined: no store or map update through any of them, in the closure or in the codec functions it hands them to", n), true)
 	}
 }
+
+// emptyPathIsRoot (R-DISPATCH, v5): the pointer "" is the whole document (RFC 6901); "/" is
+// the member with the empty name. The resolver answers both with (root, ""), so a handler
+// that resolves its path without having looked at it treats the whole document as that
+// member: `add … path ""` would add a member "" instead of replacing the document, and a
+// test of "" would compare that member. The handlers for which "" is inside the properties'
+// domain (add, replace, test) compare the path they are given with "" first, and resolve it
+// only on the other edge.
+func (b *Body) emptyPathIsRoot(l *Ledger, ai *applyInfo) {
+	for _, k := range rfc6902Kinds {
+		h := ai.handlers[k]
+		if h == nil {
+			continue
+		}
+		// C01 and C13 place "" as the destination of copy and move and as the target of
+		// remove outside their domain (today those act on the member with the empty name);
+		// what those handlers do with it is not decided here
+		if k == "copy" || k == "move" || k == "remove" {
+			continue
+		}
+		var pathVal ssa.Value
+		allInstrs(h, func(i ssa.Instruction) {
+			call, ok := i.(*ssa.Call)
+			if !ok {
+				return
+			}
+			f := call.Call.StaticCallee()
+			if f == nil || recvTypeName(f) != "Operation" || f.Name() != "Path" {
+				return
+			}
+			for _, ex := range extractOf(call, 0) {
+				pathVal = ex
+			}
+		})
+		key := fmt.Sprintf("handler %q: the path \"\" is the whole document, not the member with the empty name", k)
+		if pathVal == nil {
+			l.add("R-DISPATCH", b.Name, key, b.rel(h.Pos()), Undecided, "the handler's call of Operation.Path was not found", false)
+			continue
+		}
+		bad := ""
+		n := 0
+		allInstrs(h, func(i ssa.Instruction) {
+			call, ok := i.(*ssa.Call)
+			if !ok || !b.isFindObjectCall(&call.Call) || len(call.Call.Args) < 2 || call.Call.Args[1] != pathVal {
+				return
+			}
+			n++
+			guarded := false
+			for _, f := range dominatingFacts(call.Block()) {
+				if nonEmptyFact(f, pathVal) {
+					guarded = true
+				}
+			}
+			if !guarded {
+				bad = "the path is resolved at " + b.posOf(call) + " without having been compared with \"\": for the empty pointer the resolver answers (root, \"\"), and the operation is carried out on the root's member with the empty name instead of on the document"
+			}
+		})
+		if bad != "" {
+			l.add("R-DISPATCH", b.Name, key, b.rel(h.Pos()), Violated, bad, true)
+		} else {
+			l.add("R-DISPATCH", b.Name, key, b.rel(h.Pos()), Discharged, fmt.Sprintf("%d resolution(s) of the path, each on the != \"\" edge of a comparison with the empty pointer", n), true)
+		}
+	}
+}
+
+// nonEmptyFact: the fact says that the string s is not "" — a comparison with the empty
+// string, or of its length with 0 (or 1), with the outcome that excludes it.
+func nonEmptyFact(f edgeFact, s ssa.Value) bool {
+	bo, ok := f.V.(*ssa.BinOp)
+	if !ok {
+		return false
+	}
+	isLen := func(v ssa.Value) bool {
+		c, ok := v.(*ssa.Call)
+		if !ok || len(c.Call.Args) != 1 || c.Call.Args[0] != s {
+			return false
+		}
+		bi, ok := c.Call.Value.(*ssa.Builtin)
+		return ok && bi.Name() == "len"
+	}
+	x, y, op := bo.X, bo.Y, bo.Op
+	if x != s && !isLen(x) {
+		// constant on the left: mirror the comparison
+		x, y = y, x
+		switch op {
+		case token.LSS:
+			op = token.GTR
+		case token.GTR:
+			op = token.LSS
+		case token.LEQ:
+			op = token.GEQ
+		case token.GEQ:
+			op = token.LEQ
+		}
+	}
+	if x == s {
+		if k, isS := strConst(y); isS && k == "" {
+			return (op == token.EQL && !f.True) || (op == token.NEQ && f.True)
+		}
+		return false
+	}
+	if !isLen(x) {
+		return false
+	}
+	k, isK := intConst(y)
+	if !isK {
+		return false
+	}
+	switch {
+	case k == 0 && op == token.EQL, k == 0 && op == token.LEQ, k == 1 && op == token.LSS:
+		return !f.True
+	case k == 0 && op == token.NEQ, k == 0 && op == token.GTR, k == 1 && op == token.GEQ:
+		return f.True
+	}
+	return false
+}
